@@ -262,6 +262,14 @@ def build(se, spec):
     if k == "Rect":
         return _apply_paint(se, se.Rect(n[0], n[1], p[0], p[1]), spec)
     if k == "RectR":
+        if u:
+            # (with units the numbers are spelled as text)
+            # (radii small enough never to be clamped to half the side: the clamp is recomputed by every copy and
+            # agrees with itself only to the last bit or two)
+            # (and not percentages: a percentage radius of an unrendered rect is re-applied to the width by every
+            # copy - 0.2% of a 20% width becomes 4%, its copy 10% - Length arithmetic on percentages, C12's subject)
+            ru = "mm" if u == "%" else u
+            return _apply_paint(se, se.Rect(n[0], n[1], p[0], p[1], "0.2" + ru, "0.3" + ru), spec)
         return _apply_paint(se, se.Rect(n[0], n[1], p[0] + 10, p[1] + 10, 2, 3), spec)
     if k == "Circle":
         return _apply_paint(se, se.Circle(n[0], n[1], p[0]), spec)
@@ -275,9 +283,13 @@ def build(se, spec):
         return _apply_paint(se, se.Polygon(*n[:8]), spec)
     if k == "Text":
         t = se.Text("hello", x=n[0], y=n[1])
-        if int(abs(n[2])) % 2 == 0:
+        if u:
+            # font size and line height that stay lengths (em, %: nothing resolves them before rendering)
+            t.font_size = se.Length("2em" if u in ("in", "mm") else "120%")
+            t.line_height = se.Length("3em")
+        if int(abs(spec["nums"][2])) % 2 == 0:
             # the optional outline of the text (bbox() looks at it)
-            t.path = se.Path("M%s,%s L%s,%s Q%s,%s %s,%s z" % tuple(n[:8]))
+            t.path = se.Path("M%s,%s L%s,%s Q%s,%s %s,%s z" % tuple(spec["nums"][:8]))
         return _apply_paint(se, t, spec)
     if k == "Image":
         kw = {}
@@ -690,7 +702,7 @@ def mutate(se, o, name, k, v):
         o.reify()
     elif name == "attr_inplace":
         # an in-place arithmetic edit of a geometric property (a float is rebound, a Length is modified)
-        for attr in ("x", "cx", "x1", "width", "rx", "y"):
+        for attr in (("font_size", "line_height") if k % 2 and isinstance(getattr(o, "font_size", None), se.Length) else ()) + ("x", "cx", "x1", "width", "rx", "y"):
             cur = getattr(o, attr, None)
             if cur is not None and not isinstance(cur, (str, bool)):
                 cur *= 2
@@ -965,8 +977,15 @@ def execute(case, se, out, trace):
     try:
         y, (refkind, ref) = derive(se, case, x, x2)
     except Exception as e:
+        if core.is_harness_exc(e):
+            raise
         out.count("skip:derivation-raises")
         trace.ev("skip-derive", type(e).__name__, core.exc_sig(e)[1])
+        # an operator that cannot be evaluated (units that do not convert, ...) still has not modified its operands
+        r = diff(before, side_snap(se, a_roots))
+        if r:
+            raise V("operand-modified", [kind, deriv, "raised"], "%s of %s raised %r and left an operand changed: %s" % (deriv, kind, e, r))
+        out.count("probe:operands-intact-after-failed-derivation")
         return
     out.count("op:derive-" + deriv)
     # (b) operands untouched by the (non-in-place) derivation
